@@ -126,8 +126,10 @@ def spec_pool(uname):
                        "{a}", "x/{{auto}}/id/{job.id}"]
     if uname == "sep":
         return base + ["{a}/{{auto}}", "{job.id}"]
-    if uname == "dots":  # a '..' value in a format-string path leaves the view prefix: not generated
-        return base
+    if uname == "dots":
+        # values "", ".", ".." inside format-string paths: paths that differ as strings but name the same
+        # place ("d/" and "d/."), paths that are not in normal form (".", "p//x"), paths that leave the prefix
+        return base + ["d/{a}", "{a}/x", ".", "p//{a}", "./{a}", "{a}", "{a}/{b}"]
     return base + [
         "{%s}/{{auto}}" % k0, "{%s}" % k0, "%s_{%s}/{{auto}}" % (k1, k1), "{job.id}", "{job}",
         "{job.sp.%s}/{{auto:_}}" % k0, "{{auto:-}}", "q/{%s}/" % k0, "{zz}",
